@@ -45,6 +45,9 @@ impl F {
     pub fn lit(Ghost(x): Ghost<real>) -> (r: F) ensures r@ == x, x == 0real ==> pos_zero(r) { unimplemented!() }
     #[verifier::external_body]
     pub fn pi() -> (r: F) ensures r@ == pi_r() { unimplemented!() }
+    /// f64::EPSILON: a small positive number
+    #[verifier::external_body]
+    pub fn epsilon() -> (r: F) ensures 0real < r@ < 0.000000000000001real { unimplemented!() }
     #[verifier::external_body]
     pub fn min_value() -> (r: F) ensures r@ < -1000000000000real { unimplemented!() }
     #[verifier::external_body]
